@@ -208,7 +208,12 @@ def check(ctx):
     E = check_iv_exclusion(ctx, md)
 
     # --- R-3 census -----------------------------------------------------------------------------------
-    found = {(c, ("err:iv-and-partial-iv" if (E is not None and o["bb"] == E) else k)) for c, k, o in md.reject_sites()}
+    Eset = set(E) if isinstance(E, tuple) else ({E} if E is not None else set())
+    found = {(c, ("err:iv-and-partial-iv" if o["bb"] in Eset else k)) for c, k, o in md.reject_sites()}
+    if isinstance(E, tuple) and {("5", "err:iv-and-partial-iv"), ("6", "err:iv-and-partial-iv")} <= found:
+        # policed per arm: the one rule of the table, stated for each of the two labels
+        found -= {("5", "err:iv-and-partial-iv"), ("6", "err:iv-and-partial-iv")}
+        found.add(("all", "err:iv-and-partial-iv"))
     extra = sorted(found - CENSUS)
     missing = sorted(CENSUS - found)
     ctx.ob("R-3", "census", not extra and not missing,
@@ -316,7 +321,13 @@ def _countersig(prog, md, effs):
                     alts.append((Seq(fn, pv).contribution([e2], md.next_bb), e2["bb"]))
         else:
             for term, dbb in arms_:
-                alts.append((normalize(Seq(fn, pv).of_value(term, 0, (dbb, "term"))), dbb))
+                sq = normalize(Seq(fn, pv).of_value(term, 0, (dbb, "term")))
+                if sq and sq[0] == "unknown" and is_call(term) and len(term) > 3 and term[3] and term[3][0] == fn.key:
+                    # `vec![x]` as one arm of the match: the literal is complete only after the block that creates it
+                    nxt = fn.blocks[term[3][1]]["term"].get("target")
+                    if nxt is not None:
+                        sq = normalize(Seq(fn, pv).of_value(term, 0, (nxt, 0 if fn.blocks[nxt]["stmts"] else "term")))
+                alts.append((sq, dbb))
     else:
         for f, e in effs:
             if e["kind"] != "call":
@@ -352,8 +363,49 @@ def check_iv_exclusion(ctx, md, rule="R-2"):
             lv = pv._borrowed_lvalue(t["args"][0], bb)
             if lv[0] == "field" and lv[1] == res and lv[2] in sites:
                 sites[lv[2]].append(bb)
+            else:
+                fld = _result_field_viewed(fn, pv, t["args"][0], bb, md.result_local)
+                if fld in sites:
+                    sites[fld].append(bb)
     # candidate error exit: reachable for every label class, not the duplicate error
     cands = [o for c, k, o in md.reject_sites() if c == "all" and o["kind"] == "err" and "DuplicateMapKey" not in k]
+    if len(cands) != 1 and sites["iv"] and sites["partial_iv"]:
+        # the exclusion policed inside the two arms (each tests the OTHER field when its own label arrives): the same truth
+        # table, evaluated per arm from the arm's entry - the other field non-empty must end in an error before the next entry,
+        # the other field empty must not; a test of the arm's own field counts as empty before the arm's write, non-empty after
+        E_arm = []
+        bad = []
+        for cls, own, other in (("5", "iv", "partial_iv"), ("6", "partial_iv", "iv")):
+            ws = sorted({e["bb"] for f, e in md.field_effects() if f == own and e["bb"] in body})
+            errs = {o["bb"] for c, k, o in md.reject_sites() if c == cls and o["kind"] == "err" and "DuplicateMapKey" not in k}
+            if len(ws) != 1 or not errs:
+                bad.append("label %s: %d writes of `%s`, %d error exits of its own" % (cls, len(ws), own, len(errs)))
+                continue
+            w = ws[0]
+            entry = None
+            for b in fn.cfg.dom_chain(w):
+                if b in body and md.class_name(md.classes_at(b)) == cls:
+                    entry = b
+            if entry is None:
+                bad.append("label %s: arm entry not found" % cls)
+                continue
+            for other_empty in (True, False):
+                atoms = {b: other_empty for b in sites[other]}
+                atoms.update({b: not (fn.cfg.dominates(w, b) and b != w) for b in sites[own]})
+                reached, _ = walk(fn, entry, atoms=atoms, sinks=errs | {header}, stop=errs | {header})
+                if not other_empty:
+                    if header in reached:
+                        bad.append("label %s arrives while `%s` is non-empty, yet the next entry is processed" % (cls, other))
+                    if not (reached & errs):
+                        bad.append("label %s arrives while `%s` is non-empty: no error exit reached" % (cls, other))
+                    E_arm.extend(sorted(reached & errs))
+                elif reached & errs:
+                    bad.append("label %s is refused although `%s` is empty" % (cls, other))
+        ctx.ob(rule, "iv-exclusion-truth-table", not bad,
+               "each of the IV / Partial IV arms rejects the map iff the other field is already non-empty - truth table over the "
+               "emptiness tests from the arm's entry to the next iteration (exclusion policed per arm)", where=fn.span,
+               detail={"problems": sorted(set(bad))[:6]}, sample={"tests": sites, "form": "per-arm"})
+        return tuple(E_arm) if not bad else None
     if len(cands) != 1 or not sites["iv"] or not sites["partial_iv"]:
         ctx.ob(rule, "iv-exclusion-guard", False,
                "the loop body tests both `iv` and `partial_iv` of the result and has one error exit common to all labels",
@@ -383,6 +435,35 @@ def check_iv_exclusion(ctx, md, rule="R-2"):
            "two emptiness tests on every path to the next iteration" % len(writes), where=fn.where(E),
            detail={"problems": sorted(set(bad))[:6]}, sample={"writes": len(writes), "tests": sites})
     return E if ok else None
+
+
+def _result_field_viewed(fn, pv, op, bb, res_local, depth=0):
+    """the field of the result struct an operand is a (slice) view of: `&result.f`, `&*r` with `r = &result.f`, or
+    `Deref::deref(&result.f)` / `as_slice` (a `&Vec<u8>` handed to a helper that takes `&[u8]`), following single definitions"""
+    if op.get("k") not in ("copy", "move") or depth > 8:
+        return None
+    pl = op["place"]
+    if pv._defs is None:
+        pv._collect_defs()
+    if pl["l"] == res_local:
+        names = [e[2] for e in pl["p"] if e[0] == "field"]
+        return names[0] if len(names) == 1 and all(e[0] in ("field", "deref") for e in pl["p"]) else None
+    if any(e[0] != "deref" for e in pl["p"]):
+        return None
+    ds = [d for d in pv.reaching(pl["l"], bb, "term") if d != -1]
+    if len(ds) != 1:
+        return None
+    _, dbb, didx, payload = pv._defs[ds[0]]
+    if didx == "term":
+        if callee_path_(payload) in ("core::ops::deref::Deref::deref", "alloc::vec::Vec::<T, A>::as_slice", "core::convert::AsRef::as_ref") \
+                and payload["args"]:
+            return _result_field_viewed(fn, pv, payload["args"][0], dbb, res_local, depth + 1)
+        return None
+    if payload["k"] == "ref":
+        return _result_field_viewed(fn, pv, {"k": "copy", "place": payload["place"]}, dbb, res_local, depth + 1)
+    if payload["k"] == "use" and payload["op"].get("k") in ("copy", "move"):
+        return _result_field_viewed(fn, pv, payload["op"], dbb, res_local, depth + 1)
+    return None
 
 
 def callee_path_(t):
